@@ -244,10 +244,11 @@ fn global_invariants(s: &mut Pool2, ctx: &mut Ctx, before: &Obs, after: &Obs, ok
     }
     // C07 ledger model
     for i in 0..2 {
-        let expect = s.model.charged[i] - s.model.received[i];
-        if after.pending[i] != expect {
+        // (a changed contract may hand the collector more than was ever charged: keep the model arithmetic defined)
+        let expect = s.model.charged[i].saturating_sub(s.model.received[i]);
+        if after.pending[i] != expect || s.model.received[i] > s.model.charged[i] {
             // bug-compatible explanation: D5 dropped amounts
-            let known = if after.pending[i] + s.model.d5_dropped[i] == expect { Some("D5") } else { None };
+            let known = if after.pending[i].saturating_add(s.model.d5_dropped[i]) == expect && s.model.received[i] <= s.model.charged[i] { Some("D5") } else { None };
             ctx.fail("C07", "pending_ledger", "pending_ne_charged_minus_received", known,
                 format!("{opname}: asset {i}: pending {} != charged {} - received {}", after.pending[i], s.model.charged[i], s.model.received[i]));
             if known.is_some() {
